@@ -208,6 +208,9 @@ def check_ell(run, A):
     for fn in A.prog.all_funcs():
         if fn.mod.name not in mods or not documented_ellipsis(fn):
             continue
+        from ..terms import known_funcs as _known
+        if fn.qual not in _known() and fn.name.startswith('_'):
+            continue          # a private helper a later change introduced: analysed in place, in the graphs of its callers
         g = A.graphs.get(fn)
         short = fn.qual.split('::')[1]
         for t, opnd, ax, name, e in axis_uses(g):
@@ -215,6 +218,19 @@ def check_ell(run, A):
                 continue
             v = const_val(ax)
             if v is NOVAL:
+                from ..walk import foreign_rank_axis
+                fr = foreign_rank_axis(ax, opnd)
+                if fr is not None:
+                    # an axis counted with the rank of an array whose rank the operand need not have (leading axes of the operands broadcast against each other)
+                    n += 1
+                    if fr[0] == 'foreign':
+                        run.violation('R-ELL', f'{short}: {name.split(".")[-1]}(axis=<rank of another array>) counts from the right', fn.loc(t.node),
+                                      f'`{norm_stmt(t.node)[:110]}`: the axis is computed from the rank of `{norm_stmt(fr[1].node)[:40]}`, an array the operand is not derived from: it names '
+                                      f'the intended axis only while both happen to have the usual number of leading axes', construct=f'R-ELL::{fn.qual}::axis-foreign-rank::{name}')
+                    else:
+                        run.unresolved('R-ELL', f'{short}: {name.split(".")[-1]}(axis=<computed from a rank>) counts from the right', fn.loc(t.node),
+                                       f'`{norm_stmt(t.node)[:110]}`: the axis is computed from the rank of one of several arrays the operand combines (broadcasting): '
+                                       f'whether it is the intended axis for every admissible rank is not decided')
                 continue
             vals = v if isinstance(v, tuple) else (v,)
             if not all(isinstance(x, int) for x in vals):
@@ -511,6 +527,8 @@ def check(run):
     check_stale_loop_variables(run, A, ('pb_bss.extraction.beamformer', 'pb_bss.math.solve'))
     from ..opt import check_extent_loops
     check_extent_loops(run, A, ('pb_bss.extraction.beamformer', 'pb_bss.math.solve'))
+    from ..opt import check_block_partitions
+    check_block_partitions(run, A, ('pb_bss.extraction.beamformer', 'pb_bss.math.solve'))
     check_forwarding(run, A, ('pb_bss.extraction.beamformer', 'pb_bss.math.solve'))
     check_params_reach(run, A, ('pb_bss.extraction.beamformer', 'pb_bss.math.solve'))
     check_optional_truthiness(run, A, ('pb_bss.extraction.beamformer', 'pb_bss.math.solve'))
